@@ -15,7 +15,9 @@ class SHACryptInfo:
     hash: str
 
     def as_str(self):
-        return f"{self._prefix}rounds={self.rounds}${self.salt}${self.hash}"
+        # NOTE: rounds is None for the implicit-rounds (5000) spelling, which carries no rounds field.
+        rounds = f"rounds={self.rounds}$" if self.rounds is not None else ""
+        return f"{self._prefix}{rounds}{self.salt}${self.hash}"
 
     @property
     @abc.abstractmethod
